@@ -721,6 +721,15 @@ def m_peek(it, a, ty, callee):
     return opt_some(Ptr(Cell('peeked', x)))
 
 
+def m_chunks(it, a, ty, callee):
+    p, n = a
+    if not n.conc or n.v == 0:
+        raise Inconclusive('chunks(symbolic or zero)')
+    total = len(it.load(p).fields)
+    base = p.win[0] if p.win else 0
+    return LazyIter([Ptr(p.cell, p.path, (base + i, min(n.v, total - i))) for i in range(0, total, n.v)])
+
+
 def m_chain(it, a, ty, callee):
     xs = drain(it, as_lazy(a[0]))
     second = a[1]
@@ -776,6 +785,7 @@ def install(it):
     A(r'std::(vec::Vec|collections::VecDeque)::<.*>::retain(_mut)?::<.*>', m_retain)
     A(r'std::(vec::Vec|collections::VecDeque)::<.*>::truncate', m_vec_truncate)
     A(r'(?:core|std)::slice::<impl \[.*\]>::sort_by_key::<.*>', m_sort_by_key)
+    A(r'(?:core|std)::slice::<impl \[.*\]>::chunks', m_chunks)
     A(r"(?:core|std)::slice::<impl \[.*\]>::binary_search_by::<.*>", m_binary_search_by)
     A(r'(?:core|std)::slice::<impl \[.*\]>::sort(_unstable)?_by::<.*>', m_sort_by)
     A(r'std::cmp::Reverse', lambda it, a, ty, c: Adt('std::cmp::Reverse', 0, [a[0]]))
